@@ -179,6 +179,17 @@ def oracle_srs(case, R):
     R.check(ok, "srs_parallel_differs_from_serial",
             f"{why}; stype={case['stype']} ic={case['ic']} getresp={case['getresp']} time={case['time']} "
             f"maxcpu={case['maxcpu']} completion order={order}")
+    # a result that was handed out stays what it was: a later parallel call of the same size on other data must
+    # not reach into arrays returned earlier (shared-memory buffers are per call)
+    if case.get("second_call", True):
+        sig2 = -0.5 * np.asarray(sig, float)[::-1].copy()
+        par2 = srs.srs(sig2, sr, freq, case["Q"], parallel="yes", maxcpu=case["maxcpu"], **kw)
+        ok, why = same(ser, par)
+        R.check(ok, "srs_parallel_result_changed_by_later_call", f"{why}; getresp={case['getresp']}")
+        ser2 = srs.srs(sig2, sr, freq, case["Q"], parallel="no", **kw)
+        ok, why = same(ser2, par2)
+        R.check(ok, "srs_second_parallel_call_differs_from_serial", f"{why}; getresp={case['getresp']}")
+        R.label("second_call")
 
 
 def oracle_fdepsd(case, R):
